@@ -124,7 +124,7 @@ impl Cx<'_> {
       match it {
         Item::Type(a) if a.ident == name => return self.ty(&a.ty, depth),
         Item::Struct(s) if s.ident == name => return self.strukt(s, depth),
-        Item::Enum(e) if e.ident == name => return self.enm(e),
+        Item::Enum(e) if e.ident == name => return self.enm(e, depth),
         _ => {}
       }
     }
@@ -208,9 +208,51 @@ impl Cx<'_> {
     json!({"k": "struct", "fs": fs, "flat": flat, "deny": deny, "cdefault": cdefault, "skipNone": skip_none})
   }
 
-  fn enm(&self, e: &syn::ItemEnum) -> Value {
+  /// `#[serde(untagged)] enum`: unit variants (their `rename` is recorded, serde ignores it) and newtype variants
+  fn untagged(&self, e: &syn::ItemEnum, depth: usize) -> Value {
+    let derives = e.attrs.iter().filter(|a| a.path().is_ident("derive")).map(|a| facts::norm(&a.meta)).collect::<Vec<_>>().join(" ");
+    if !derives.contains("Serialize") || !derives.contains("Deserialize") {
+      return other(format!("enum derives {derives}"));
+    }
+    let mut vs = vec![];
+    for v in &e.variants {
+      let metas = match serde_metas(&v.attrs) {
+        Ok(m) => m,
+        Err(er) => return other(er),
+      };
+      match &v.fields {
+        Fields::Unit => {
+          let mut wire = v.ident.to_string();
+          for m in &metas {
+            match m {
+              Meta::NameValue(nv) if nv.path.is_ident("rename") => match lit_str(&nv.value) {
+                Some(s) => wire = s,
+                None => return other("rename without literal"),
+              },
+              o => return other(format!("variant serde attr {}", facts::norm(o))),
+            }
+          }
+          vs.push(json!({"unit": wire}));
+        }
+        Fields::Unnamed(u) if u.unnamed.len() == 1 => {
+          if !metas.is_empty() {
+            return other(format!("variant serde attr {}", facts::norm(&metas[0])));
+          }
+          if u.unnamed[0].attrs.iter().any(|a| a.path().is_ident("serde")) {
+            return other("serde attribute on a variant field");
+          }
+          vs.push(json!({"newtype": self.ty(&u.unnamed[0].ty, depth + 1)}));
+        }
+        _ => return other("untagged variant that is neither unit nor newtype"),
+      }
+    }
+    json!({"k": "untagged", "vs": vs})
+  }
+
+  fn enm(&self, e: &syn::ItemEnum, depth: usize) -> Value {
     match serde_metas(&e.attrs) {
       Ok(m) if m.is_empty() => {}
+      Ok(m) if m.len() == 1 && matches!(&m[0], Meta::Path(p) if p.is_ident("untagged")) => return self.untagged(e, depth),
       Ok(m) => return other(format!("enum serde attr {}", facts::norm(&m[0]))),
       Err(er) => return other(er),
     }
@@ -251,7 +293,8 @@ impl Cx<'_> {
 
 pub fn eval(op: &str, input: &mut Value) -> OpResult {
   match op {
-    "codec.type" => {
+    // `codec.union`: the same evaluation, the root type is an untagged enum
+    "codec.type" | "codec.union" => {
       let (files, _stats) = match k_gen::generate(input) {
         Ok(x) => x,
         Err(e) => return Ok(json!({"err": e})),
@@ -263,7 +306,16 @@ pub fn eval(op: &str, input: &mut Value) -> OpResult {
       };
       let root = input["root"].as_str().unwrap_or("T");
       let cx = Cx { file: &file };
-      let mut out = json!({"ty": cx.named(root, 0)});
+      let mut ty = cx.named(root, 0);
+      // variant identifiers of a union of constants are not part of the model (naming: C09)
+      if op == "codec.union" && ty["k"] == "enum" {
+        if let Some(vs) = ty["vs"].as_array_mut() {
+          for v in vs {
+            v["name"] = Value::String(String::new());
+          }
+        }
+      }
+      let mut out = json!({"ty": ty});
       if input["want"].as_array().is_some_and(|a| a.iter().any(|x| x == "code")) {
         out["code"] = Value::String(types.clone());
       }
